@@ -391,6 +391,23 @@ pub fn main_c10(args: &Args) -> std::io::Result<()> {
             if !near(arc.flip().sample(u), arc.sample(1.0 - u)) {
                 bad.push("arc flip is not u -> 1 - u");
             }
+            // angles: get_angle(t) runs linearly from the start angle to end_angle(), and sampling is the
+            // ellipse evaluated at that angle
+            {
+                let ang = arc.get_angle(t).radians;
+                if (ang - (arc.start_angle.radians + arc.sweep_angle.radians * t)).abs() > 1e-9
+                    || (arc.end_angle().radians - (arc.start_angle.radians + arc.sweep_angle.radians)).abs() > 1e-9
+                    || (arc.get_angle(1.0).radians - arc.end_angle().radians).abs() > 1e-9
+                {
+                    bad.push("arc get_angle / end_angle are not start + sweep * t");
+                }
+                let (c, s2) = (arc.x_rotation.radians.cos(), arc.x_rotation.radians.sin());
+                let (ex, ey) = (arc.radii.x * ang.cos(), arc.radii.y * ang.sin());
+                let want = point(arc.center.x + ex * c - ey * s2, arc.center.y + ex * s2 + ey * c);
+                if !near(arc.sample(t), want) {
+                    bad.push("arc sample(t) is not the ellipse evaluated at get_angle(t)");
+                }
+            }
             if !near(arc.from(), arc.sample(0.0)) || !near(arc.to(), arc.sample(1.0)) {
                 bad.push("arc from / to are not sample(0) / sample(1)");
             }
@@ -502,6 +519,7 @@ pub fn main_c11(args: &Args) -> std::io::Result<()> {
             v
         }));
         check_quad_boxes(&mut cx, &q, 0.0);
+        check_quad_axis_monotone(&mut cx, &q, 0.0);
 
         // ---- cubics whose derivative has chosen dyadic roots m1/8, m2/8 (per coordinate)
         let ccoord = |r: &mut Rng| -> (f64, f64, f64, f64) {
@@ -546,14 +564,17 @@ pub fn main_c11(args: &Args) -> std::io::Result<()> {
             v
         }));
         check_cubic_boxes(&mut cx, &cb, 0.0);
+        check_cubic_axis_monotone(&mut cx, &cb, 0.0);
 
         // ---- general position (not exact): direct evaluation only
         if it % 2 == 0 {
             let g = |r: &mut Rng| point((r.unit_f64() - 0.5) * 20.0, (r.unit_f64() - 0.5) * 20.0);
             let q = QuadraticBezierSegment { from: g(r), ctrl: g(r), to: g(r) };
             check_quad_boxes(&mut cx, &q, 1e-9);
+            check_quad_axis_monotone(&mut cx, &q, 1e-9);
             let cb = CubicBezierSegment { from: g(r), ctrl1: g(r), ctrl2: g(r), to: g(r) };
             check_cubic_boxes(&mut cx, &cb, 1e-9);
+            check_cubic_axis_monotone(&mut cx, &cb, 1e-9);
             cx.st.inc("general_position_curves");
         }
     }
@@ -590,9 +611,374 @@ pub fn main_c11(args: &Args) -> std::io::Result<()> {
             cx.st.fail(jobj(&[("what", jstr("bounding box of a line segment is not the box of its end points")), ("input", jstr(&format!("{:?} -> {:?}", l, b)))]));
         }
     }
+    // ---- f32 cubics whose derivative has a tiny leading coefficient (degree-elevated quadratics and
+    // cubics with a linear derivative, moved by an affine map in f32): the root formula must not cancel
+    let nf = if args.thorough() { 8000 } else { 1000 };
+    for it in 0..nf {
+        let r = &mut rng;
+        let g = |r: &mut Rng| point(r.range(-9, 9) as f32, r.range(-9, 9) as f32);
+        let base: CubicBezierSegment<f32> = match it % 3 {
+            0 => QuadraticBezierSegment { from: g(r), ctrl: g(r), to: g(r) }.to_cubic(),
+            1 => {
+                // p3 + 3 (p1 - p2) - p0 = 0 in both coordinates
+                let (p0, p1, p2) = (g(r), g(r), g(r));
+                CubicBezierSegment { from: p0, ctrl1: p1, ctrl2: p2, to: point(p0.x - 3.0 * (p1.x - p2.x), p0.y - 3.0 * (p1.y - p2.y)) }
+            }
+            _ => CubicBezierSegment { from: g(r), ctrl1: g(r), ctrl2: g(r), to: g(r) },
+        };
+        let t = lyon_geom::euclid::default::Transform2D::<f32>::new(
+            0.3 + r.unit_f64() as f32, (r.unit_f64() - 0.5) as f32 * (it % 2) as f32,
+            (r.unit_f64() - 0.5) as f32 * (it % 2) as f32, 0.3 + r.unit_f64() as f32,
+            (r.unit_f64() * 10.0 - 5.0) as f32, (r.unit_f64() * 10.0 - 5.0) as f32);
+        let c = CubicBezierSegment { from: t.transform_point(base.from), ctrl1: t.transform_point(base.ctrl1), ctrl2: t.transform_point(base.ctrl2), to: t.transform_point(base.to) };
+        check_cubic_boxes_f32(&mut cx, &c);
+    }
+    // ---- whole paths: lyon_algorithms::aabb and lyon_algorithms::fit
+    let np = if args.thorough() { 4000 } else { 500 };
+    for _ in 0..np {
+        check_path_boxes(&mut cx, &mut rng);
+    }
     drop(cx);
     w.finish()?;
     st.write(&args.out.join("c11_stats.json"))
+}
+
+/// sign changes of one coordinate along samples (moves below eps ignored)
+fn coord_monotone(vals: &[f64], eps: f64) -> bool {
+    let mut s = 0.0f64;
+    for w in vals.windows(2) {
+        let d = w[1] - w[0];
+        if d.abs() > eps {
+            if s != 0.0 && d.signum() != s {
+                return false;
+            }
+            s = d.signum();
+        }
+    }
+    true
+}
+
+/// x-only / y-only monotone splits and the is_*_monotonic predicates of a quadratic
+fn check_quad_axis_monotone(cx: &mut Ctx, q: &QuadraticBezierSegment<f64>, slack: f64) {
+    let r = catch(|| {
+        let mut bad: Vec<String> = Vec::new();
+        let span = 1.0 + q.from.to_vector().length() + q.ctrl.to_vector().length() + q.to.to_vector().length();
+        let eps = 1e-9 * span + slack * 1e3;
+        for axis in 0..2 {
+            let name = if axis == 0 { "x" } else { "y" };
+            let mut ranges: Vec<std::ops::Range<f64>> = Vec::new();
+            let mut pieces: Vec<QuadraticBezierSegment<f64>> = Vec::new();
+            if axis == 0 {
+                q.for_each_x_monotonic_range(&mut |r| ranges.push(r));
+                q.for_each_x_monotonic(&mut |p| pieces.push(*p));
+            } else {
+                q.for_each_y_monotonic_range(&mut |r| ranges.push(r));
+                q.for_each_y_monotonic(&mut |p| pieces.push(*p));
+            }
+            if ranges.first().map(|r| r.start) != Some(0.0) || ranges.last().map(|r| r.end) != Some(1.0) || ranges.windows(2).any(|w| w[0].end != w[1].start) {
+                bad.push(format!("{}-monotonic ranges do not chain from 0 to 1", name));
+            }
+            if ranges.len() != pieces.len() {
+                bad.push(format!("{}-monotonic pieces and ranges differ in number", name));
+            }
+            for rg in &ranges {
+                let vals: Vec<f64> = (0..=32).map(|i| { let p = q.sample(rg.start + (rg.end - rg.start) * i as f64 / 32.0); if axis == 0 { p.x } else { p.y } }).collect();
+                if !coord_monotone(&vals, eps) {
+                    bad.push(format!("{}-monotonic range is not monotonic in {}", name, name));
+                }
+            }
+            for (rg, pc) in ranges.iter().zip(pieces.iter()) {
+                let vals: Vec<f64> = (0..=32).map(|i| { let p = pc.sample(i as f64 / 32.0); if axis == 0 { p.x } else { p.y } }).collect();
+                if !coord_monotone(&vals, eps) {
+                    bad.push(format!("{}-monotonic piece is not monotonic in {}", name, name));
+                }
+                for i in 0..=8 {
+                    let u = i as f64 / 8.0;
+                    if !papprox(pc.sample(u), q.sample(rg.start + (rg.end - rg.start) * u), 1e-9 * span + slack * 1e3) {
+                        bad.push(format!("{}-monotonic pieces do not retrace the curve", name));
+                        break;
+                    }
+                }
+            }
+            // the predicate agrees with the split
+            let flag = if axis == 0 { q.is_x_monotonic() } else { q.is_y_monotonic() };
+            if flag != (ranges.len() == 1) {
+                bad.push(format!("is_{}_monotonic disagrees with the {}-monotonic split", name, name));
+            }
+            if flag {
+                let vals: Vec<f64> = (0..=64).map(|i| { let p = q.sample(i as f64 / 64.0); if axis == 0 { p.x } else { p.y } }).collect();
+                if !coord_monotone(&vals, eps) {
+                    bad.push(format!("is_{}_monotonic is true of a curve whose {} is not monotonic", name, name));
+                }
+            }
+        }
+        if q.is_monotonic() != (q.is_x_monotonic() && q.is_y_monotonic()) {
+            bad.push("is_monotonic is not the conjunction of the two axes".into());
+        }
+        bad.dedup();
+        bad
+    });
+    cx.st.inc("direct_quad_axis_monotone_checks");
+    match r {
+        Some(bad) => {
+            for b in bad {
+                cx.fail(&b, format!("{:?}", q));
+            }
+        }
+        None => cx.fail("panic in quadratic x / y monotonic API", format!("{:?}", q)),
+    }
+}
+
+fn check_cubic_axis_monotone(cx: &mut Ctx, c: &CubicBezierSegment<f64>, slack: f64) {
+    let r = catch(|| {
+        let mut bad: Vec<String> = Vec::new();
+        let span = 1.0 + c.from.to_vector().length() + c.ctrl1.to_vector().length() + c.ctrl2.to_vector().length() + c.to.to_vector().length();
+        let eps = 1e-9 * span + slack * 1e3;
+        // 0 = x only, 1 = y only, 2 = both
+        for axis in 0..3 {
+            let name = ["x", "y", "xy"][axis];
+            let mut ranges: Vec<std::ops::Range<f64>> = Vec::new();
+            let mut pieces: Vec<CubicBezierSegment<f64>> = Vec::new();
+            match axis {
+                0 => {
+                    c.for_each_x_monotonic_range(&mut |r| ranges.push(r));
+                    c.for_each_x_monotonic(&mut |p| pieces.push(*p));
+                }
+                1 => {
+                    c.for_each_y_monotonic_range(&mut |r| ranges.push(r));
+                    c.for_each_y_monotonic(&mut |p| pieces.push(*p));
+                }
+                _ => {
+                    c.for_each_monotonic_range(&mut |r| ranges.push(r));
+                    c.for_each_monotonic(&mut |p| pieces.push(*p));
+                }
+            }
+            if ranges.first().map(|r| r.start) != Some(0.0) || ranges.last().map(|r| r.end) != Some(1.0) || ranges.windows(2).any(|w| w[0].end != w[1].start) {
+                bad.push(format!("cubic {}-monotonic ranges do not chain from 0 to 1", name));
+            }
+            if ranges.len() != pieces.len() {
+                bad.push(format!("cubic {}-monotonic pieces and ranges differ in number", name));
+            }
+            let mono = |f: &dyn Fn(f64) -> lyon_geom::Point<f64>| -> (bool, bool) {
+                let xs: Vec<f64> = (0..=32).map(|i| f(i as f64 / 32.0).x).collect();
+                let ys: Vec<f64> = (0..=32).map(|i| f(i as f64 / 32.0).y).collect();
+                (coord_monotone(&xs, eps), coord_monotone(&ys, eps))
+            };
+            for rg in &ranges {
+                let (mx, my) = mono(&|u| c.sample(rg.start + (rg.end - rg.start) * u));
+                if (axis != 1 && !mx) || (axis != 0 && !my) {
+                    bad.push(format!("cubic {}-monotonic range is not monotonic", name));
+                }
+            }
+            for (rg, pc) in ranges.iter().zip(pieces.iter()) {
+                let (mx, my) = mono(&|u| pc.sample(u));
+                if (axis != 1 && !mx) || (axis != 0 && !my) {
+                    bad.push(format!("cubic {}-monotonic piece is not monotonic", name));
+                }
+                for i in 0..=8 {
+                    let u = i as f64 / 8.0;
+                    if !papprox(pc.sample(u), c.sample(rg.start + (rg.end - rg.start) * u), 1e-9 * span + slack * 1e3) {
+                        bad.push(format!("cubic {}-monotonic pieces do not retrace the curve", name));
+                        break;
+                    }
+                }
+            }
+            let flag = match axis {
+                0 => c.is_x_monotonic(),
+                1 => c.is_y_monotonic(),
+                _ => c.is_monotonic(),
+            };
+            if flag != (ranges.len() == 1) {
+                bad.push(format!("cubic is_{}_monotonic disagrees with the split", name));
+            }
+        }
+        bad.dedup();
+        bad
+    });
+    cx.st.inc("direct_cubic_axis_monotone_checks");
+    match r {
+        Some(bad) => {
+            for b in bad {
+                cx.fail(&b, format!("{:?}", c));
+            }
+        }
+        None => cx.fail("panic in cubic x / y monotonic API", format!("{:?}", c)),
+    }
+}
+
+fn check_cubic_boxes_f32(cx: &mut Ctx, c: &CubicBezierSegment<f32>) {
+    let r = catch(|| {
+        let mut bad: Vec<String> = Vec::new();
+        let b = c.bounding_box();
+        let f = c.fast_bounding_box();
+        let c64 = CubicBezierSegment { from: point(c.from.x as f64, c.from.y as f64), ctrl1: point(c.ctrl1.x as f64, c.ctrl1.y as f64), ctrl2: point(c.ctrl2.x as f64, c.ctrl2.y as f64), to: point(c.to.x as f64, c.to.y as f64) };
+        let (mut lx, mut hx, mut ly, mut hy) = (f64::MAX, f64::MIN, f64::MAX, f64::MIN);
+        for i in 0..=512 {
+            let p = c64.sample(i as f64 / 512.0);
+            lx = lx.min(p.x);
+            hx = hx.max(p.x);
+            ly = ly.min(p.y);
+            hy = hy.max(p.y);
+        }
+        let span = (hx - lx).max(hy - ly).max(1.0);
+        let s = 1e-4 * span;
+        if (b.min.x as f64) > lx + s || (b.max.x as f64) < hx - s || (b.min.y as f64) > ly + s || (b.max.y as f64) < hy - s {
+            bad.push(format!("f32 bounding_box {:?} does not contain the curve (samples span x {}..{} y {}..{})", b, lx, hx, ly, hy));
+        }
+        let e = 1e-3 * span;
+        if (b.min.x as f64) < lx - e || (b.max.x as f64) > hx + e || (b.min.y as f64) < ly - e || (b.max.y as f64) > hy + e {
+            bad.push(format!("f32 bounding box {:?} is not tight (samples span x {}..{} y {}..{})", b, lx, hx, ly, hy));
+        }
+        if f.min.x > b.min.x || f.min.y > b.min.y || f.max.x < b.max.x || f.max.y < b.max.y {
+            bad.push("f32 fast bounding box does not contain the exact one".into());
+        }
+        // the reported extremum parameters attain the sides
+        let at = [c64.x(c.x_minimum_t() as f64), c64.x(c.x_maximum_t() as f64), c64.y(c.y_minimum_t() as f64), c64.y(c.y_maximum_t() as f64)];
+        if (at[0] - lx).abs() > e || (at[1] - hx).abs() > e || (at[2] - ly).abs() > e || (at[3] - hy).abs() > e {
+            bad.push(format!("f32 extremum parameters do not locate the extreme coordinates: {:?} vs x {}..{} y {}..{}", at, lx, hx, ly, hy));
+        }
+        bad
+    });
+    cx.st.inc("direct_cubic_f32_box_checks");
+    match r {
+        Some(bad) => {
+            for b in bad {
+                cx.fail(&b, format!("{:?}", c));
+            }
+        }
+        None => cx.fail("panic in cubic bounding box API (f32)", format!("{:?}", c)),
+    }
+}
+
+/// path-level boxes (lyon_algorithms::aabb) and fitting (lyon_algorithms::fit) on a random f32 path
+fn check_path_boxes(cx: &mut Ctx, rng: &mut Rng) {
+    use lyon_algorithms::aabb;
+    use lyon_algorithms::fit::{fit_box, fit_path, FitStyle};
+    use lyon_path::math::{point as pt, Box2D};
+    use lyon_path::{Path, PathEvent};
+    let lattice = rng.chance(1, 2);
+    let mut g = |r: &mut Rng| if lattice { pt(r.range(-9, 9) as f32, r.range(-9, 9) as f32) } else { pt((r.unit_f64() * 40.0 - 20.0) as f32, (r.unit_f64() * 40.0 - 20.0) as f32) };
+    let mut b = Path::builder();
+    let nsub = rng.below(4);
+    for _ in 0..nsub {
+        b.begin(g(rng));
+        for _ in 0..rng.below(5) {
+            match rng.below(3) {
+                0 => {
+                    b.line_to(g(rng));
+                }
+                1 => {
+                    b.quadratic_bezier_to(g(rng), g(rng));
+                }
+                _ => {
+                    b.cubic_bezier_to(g(rng), g(rng), g(rng));
+                }
+            }
+        }
+        b.end(rng.chance(1, 2));
+    }
+    let path = b.build();
+    let label = format!("{:?}", path);
+    cx.st.inc("evaluations");
+    cx.st.inc("direct_path_box_checks");
+    cx.st.note_case(&label, nsub > 0);
+    let r = catch(std::panic::AssertUnwindSafe(|| {
+        let mut bad: Vec<String> = Vec::new();
+        let bx = aabb::bounding_box(path.iter());
+        let fx = aabb::fast_bounding_box(path.iter());
+        if nsub == 0 {
+            if bx != Box2D::zero() || fx != Box2D::zero() {
+                bad.push("bounding box of an empty path is not the zero box".into());
+            }
+            return bad;
+        }
+        // dense samples of every edge (f64 evaluation of the f32 control points)
+        let (mut lx, mut hx, mut ly, mut hy) = (f64::MAX, f64::MIN, f64::MAX, f64::MIN);
+        let mut acc = |x: f64, y: f64| {
+            lx = lx.min(x);
+            hx = hx.max(x);
+            ly = ly.min(y);
+            hy = hy.max(y);
+        };
+        let p64 = |p: lyon_path::math::Point| point(p.x as f64, p.y as f64);
+        for e in path.iter() {
+            match e {
+                PathEvent::Begin { at } => acc(at.x as f64, at.y as f64),
+                PathEvent::Line { to, .. } => acc(to.x as f64, to.y as f64),
+                PathEvent::Quadratic { from, ctrl, to } => {
+                    let q = QuadraticBezierSegment { from: p64(from), ctrl: p64(ctrl), to: p64(to) };
+                    for i in 0..=256 {
+                        let p = q.sample(i as f64 / 256.0);
+                        acc(p.x, p.y);
+                    }
+                }
+                PathEvent::Cubic { from, ctrl1, ctrl2, to } => {
+                    let c = CubicBezierSegment { from: p64(from), ctrl1: p64(ctrl1), ctrl2: p64(ctrl2), to: p64(to) };
+                    for i in 0..=256 {
+                        let p = c.sample(i as f64 / 256.0);
+                        acc(p.x, p.y);
+                    }
+                }
+                PathEvent::End { .. } => {}
+            }
+        }
+        let s = 1e-4 * (1.0 + (hx - lx).max(hy - ly));
+        let (b0, b1, b2, b3) = (bx.min.x as f64, bx.max.x as f64, bx.min.y as f64, bx.max.y as f64);
+        if b0 > lx + s || b1 < hx - s || b2 > ly + s || b3 < hy - s {
+            bad.push(format!("path bounding box {:?} does not contain the path (samples span x {}..{} y {}..{})", bx, lx, hx, ly, hy));
+        }
+        let e = 2e-3 * (1.0 + (hx - lx).max(hy - ly));
+        if b0 < lx - e || b1 > hx + e || b2 < ly - e || b3 > hy + e {
+            bad.push(format!("path bounding box {:?} is not tight (samples span x {}..{} y {}..{})", bx, lx, hx, ly, hy));
+        }
+        if fx.min.x > bx.min.x || fx.min.y > bx.min.y || fx.max.x < bx.max.x || fx.max.y < bx.max.y {
+            bad.push(format!("fast path bounding box {:?} does not contain the exact one {:?}", fx, bx));
+        }
+        // fitting: the image of the source box under fit_box, per style
+        let dst = Box2D { min: pt(-3.0, 2.0), max: pt(5.0, 6.0) };
+        if bx.width() > 0.01 && bx.height() > 0.01 {
+            for style in [FitStyle::Stretch, FitStyle::Min, FitStyle::Max, FitStyle::Horizontal, FitStyle::Vertical] {
+                let t = fit_box(&bx, &dst, style);
+                let img = t.outer_transformed_box(&bx);
+                let tol = 1e-3 * (1.0 + img.width().abs().max(img.height().abs()));
+                let ceq = |a: f32, b: f32| (a - b).abs() <= tol;
+                let (ic, dc) = (img.min.lerp(img.max, 0.5), dst.min.lerp(dst.max, 0.5));
+                if !ceq(ic.x, dc.x) || !ceq(ic.y, dc.y) {
+                    bad.push(format!("fit_box {:?}: the image of the source box is not centred in the destination", style));
+                }
+                let (sw, sh) = (img.width() / bx.width(), img.height() / bx.height());
+                let ok = match style {
+                    FitStyle::Stretch => ceq(img.width(), dst.width()) && ceq(img.height(), dst.height()),
+                    FitStyle::Min => (sw - sh).abs() <= 1e-3 * sw.abs() && img.width() <= dst.width() + tol && img.height() <= dst.height() + tol && (ceq(img.width(), dst.width()) || ceq(img.height(), dst.height())),
+                    FitStyle::Max => (sw - sh).abs() <= 1e-3 * sw.abs() && img.width() >= dst.width() - tol && img.height() >= dst.height() - tol && (ceq(img.width(), dst.width()) || ceq(img.height(), dst.height())),
+                    FitStyle::Horizontal => (sw - sh).abs() <= 1e-3 * sw.abs() && ceq(img.width(), dst.width()),
+                    FitStyle::Vertical => (sw - sh).abs() <= 1e-3 * sw.abs() && ceq(img.height(), dst.height()),
+                };
+                if !ok {
+                    bad.push(format!("fit_box {:?}: source {:?} is mapped to {:?}, destination {:?}", style, bx, img, dst));
+                }
+                // fit_path: the fitted path's box is that image
+                let fitted = fit_path(&path, &dst, style);
+                let fb = aabb::bounding_box(fitted.iter());
+                let tol2 = 5e-3 * (1.0 + img.width().abs().max(img.height().abs()));
+                if (fb.min.x - img.min.x).abs() > tol2 || (fb.max.x - img.max.x).abs() > tol2 || (fb.min.y - img.min.y).abs() > tol2 || (fb.max.y - img.max.y).abs() > tol2 {
+                    bad.push(format!("fit_path {:?}: the fitted path's bounding box {:?} is not the fitted box {:?}", style, fb, img));
+                }
+                if fitted.iter().count() != path.iter().count() {
+                    bad.push(format!("fit_path {:?}: the fitted path has a different number of events", style));
+                }
+            }
+        }
+        bad
+    }));
+    match r {
+        Some(bad) => {
+            for b in bad {
+                cx.fail(&b, label.clone());
+            }
+        }
+        None => cx.fail("panic in path bounding box / fit API", label),
+    }
 }
 
 fn check_arc_boxes(cx: &mut Ctx, arc: &lyon_geom::Arc<f64>) {
